@@ -15,6 +15,12 @@ COMMON_TRUST = [
 
 # A property is claimed in MANIFEST as soon as some part supplies a `text` for it.
 NOT_APPLICABLE = {}
+# properties whose check exists but is not registered yet (e.g. repairs of genuine defects it reports are still being
+# committed to /repo); empty when everything built is claimed
+HOLD = {"C06": "check built (reference writer + independent reader in Lean); it reports genuine reader defects (F12 F26 F27 F52-F55 F58) whose repairs are being committed to /repo; claimed once they are in"}
+import os as _os
+if _os.environ.get("VERIF_UNHOLD"):
+    HOLD = {}
 HOOK_COMMITS = ["ad35b42", "817258c"]
 
 
@@ -48,7 +54,7 @@ def merged():
             for k in ("text", "level_note", "technique"):
                 if d.get(k):
                     c.setdefault(k + "s", []).append(d[k])
-            for k in ("variant", "timeout"):
+            for k in ("variant", "timeout", "shards"):
                 if k in d:
                     c[k] = d[k]
             c.setdefault("pregen", {}).update(d.get("pregen", {}))
@@ -58,7 +64,7 @@ def merged():
         c["level_note"] = " || ".join(dict.fromkeys(c.get("level_notes", []))) or "Lean kernel; translator; correspondence harness"
         c["technique"] = "; ".join(dict.fromkeys(c.get("techniques", []))) or \
             "Lean 4 proof over executable model + differential correspondence to the C code"
-    return {pid: c for pid, c in props.items() if c.get("texts")}
+    return {pid: c for pid, c in props.items() if c.get("texts") and pid not in HOLD}
 
 
 PROPS = merged()
